@@ -45,7 +45,10 @@ class Scn:
         return out
 
     def replay(self):
-        return {"users": self.users, "topics": self.topics, "sessions": self.sessions, "bursts": self.bursts, "seq": self.seq}
+        d = {"users": self.users, "topics": self.topics, "sessions": self.sessions, "bursts": self.bursts, "seq": self.seq}
+        if getattr(self, "allowed", None) is not None:
+            d["allowed"] = self.allowed
+        return d
 
     @staticmethod
     def from_replay(sid, r):
@@ -55,6 +58,8 @@ class Scn:
         sc.sessions = {int(k): v for k, v in r["sessions"].items()}
         sc.bursts = r["bursts"]
         sc.seq = r.get("seq", False)
+        if "allowed" in r:
+            sc.allowed = r["allowed"]
         return sc
 
 
@@ -130,7 +135,39 @@ def gen_request(rng, sc, si, rid, model_scope=False):
     return "q %d %s sub %d" % (si, rid, k)
 
 
+def gen_normal_request(rng, sc, si, rid, avoid=()):
+    """a request that cannot make a topic instance terminate and is not forwarded by the hub to a topic that may be
+    loading: no {del topic}, no {del user}, no unsubscribe on a p2p topic (the last party leaving deletes it);
+    never on a topic in [avoid]"""
+    ks = [k for k in sc.topics if usable(sc, si, k) and k not in avoid]
+    if not ks:
+        return None
+    grp = [k for k in ks if sc.topics[k]["kind"] in ("grp", "chn")]
+    u = sc.sessions[si]["user"]
+    r = rng.random()
+    k = rng.choice(grp) if (grp and rng.random() < 0.75) else rng.choice(ks)
+    p2p = sc.topics[k]["kind"] == "p2p"
+    if r < 0.42:
+        return "q %d %s sub %d" % (si, rid, k)
+    if r < 0.64:
+        return "q %d %s leave %d 0" % (si, rid, k)
+    if r < 0.73:
+        return "q %d %s leave %d %d" % (si, rid, k, 0 if p2p else 1)
+    if r < 0.84:
+        return "q %d %s pub %d" % (si, rid, k)
+    if r < 0.97:
+        return "q %d %s disc" % (si, rid)
+    return "q %d %s sub %d" % (si, rid, k)
+
+
 def gen_burst_scn(rng, sid):
+    """Random bursts whose OUTCOME CLASS is deterministic on the unchanged tree: any number of sessions race on
+    subscribe / leave / unsubscribe / publish / disconnect / slow-consumer eviction, but a step that makes a topic
+    instance terminate (owner's {del topic}, idle unload, p2p unsubscribe, {del user}) is never in one burst with
+    another request that addresses that topic ({del user}: alone in its burst), and every stalled writer is
+    released before it.  The races between termination and requests on the SAME topic - whose outcome on the
+    unchanged tree depends on the schedule (findings 1-3, 9-11) - are exercised by the corpus scenarios, whose
+    possible outcomes are enumerated in the corpus files."""
     sc = gen_setup(rng, sid)
     rid = [0]
 
@@ -144,26 +181,63 @@ def gen_burst_scn(rng, sid):
     stalled = set()
     for b in range(rng.randint(3, 7)):
         lines = []
-        for si in slow:
-            if si not in stalled and rng.random() < 0.5:
-                lines.append("i stall %d" % si)
-                stalled.add(si)
-            elif si in stalled and rng.random() < 0.5:
-                lines.append("i unstall %d" % si)
-                stalled.discard(si)
-        for k, t in sc.topics.items():
-            if t["kind"] in ("grp", "chn", "p2p") and rng.random() < 0.25:
+        avoid = set()
+        solo = False
+        if rng.random() < 0.35:
+            # a burst in which one topic instance terminates
+            lines += ["i unstall %d" % si for si in sorted(stalled)]
+            stalled.clear()
+            r = rng.random()
+            grp = [k for k, t in sc.topics.items() if t["kind"] in ("grp", "chn")]
+            p2p = [k for k, t in sc.topics.items() if t["kind"] == "p2p"]
+            if r < 0.40 and grp:
+                k = rng.choice(grp)
+                own = [si for si, x in sc.sessions.items() if x["user"] == sc.topics[k]["owner"]]
+                lines.append("q %d %s deltopic %d" % (rng.choice(own), nr(), k))
+                avoid.add(k)
+            elif r < 0.72:
+                k = rng.choice(grp + p2p)
                 lines.append("i unload %d" % k)
-        active = [si for si in sc.sessions if rng.random() < 0.7] or [rng.choice(list(sc.sessions))]
-        per = {si: rng.randint(1, 3) for si in active}
-        # interleave the textual order (only the per-session order matters)
-        while any(per.values()):
-            si = rng.choice([s for s, n in per.items() if n > 0])
-            per[si] -= 1
-            lines.append(gen_request(rng, sc, si, nr()))
-        sc.bursts.append(lines)
+                avoid.add(k)
+            elif r < 0.86 and grp:
+                # {del topic} by a non-owner: an unsubscribe that travels through the hub; the hub forwards it to
+                # whatever instance is registered, also one whose load is about to fail (seen once under load: lost)
+                k = rng.choice(grp)
+                non = [si for si, x in sc.sessions.items() if x["user"] != sc.topics[k]["owner"]]
+                if non:
+                    lines.append("q %d %s deltopic %d" % (rng.choice(non), nr(), k))
+                    avoid.add(k)
+            elif r < 0.93 and p2p:
+                k = p2p[0]
+                si = rng.choice([si for si, x in sc.sessions.items() if x["user"] in (sc.topics[k]["u1"], sc.topics[k]["u2"])])
+                lines.append("q %d %s leave %d 1" % (si, nr(), k))
+                avoid.add(k)
+            else:
+                lines.append("q %d %s deluser" % (rng.choice(list(sc.sessions)), nr()))
+                solo = True
+        else:
+            for si in slow:
+                if si not in stalled and rng.random() < 0.5:
+                    lines.append("i stall %d" % si)
+                    stalled.add(si)
+                elif si in stalled and rng.random() < 0.5:
+                    lines.append("i unstall %d" % si)
+                    stalled.discard(si)
+        if not solo:
+            busy = set(int(l.split()[1]) for l in lines if l.startswith("q "))
+            active = [si for si in sc.sessions if si not in busy and rng.random() < 0.7] or []
+            per = {si: rng.randint(1, 3) for si in active}
+            # interleave the textual order (only the per-session order matters)
+            while any(per.values()):
+                si = rng.choice([s for s, n in per.items() if n > 0])
+                per[si] -= 1
+                l = gen_normal_request(rng, sc, si, nr(), avoid)
+                if l:
+                    lines.append(l)
+        if lines:
+            sc.bursts.append(lines)
     # after the races: everybody asks for every group topic again (deleted ones must be refused)
-    lines = ["i unstall %d" % si for si in stalled]
+    lines = ["i unstall %d" % si for si in sorted(stalled)]
     for si in sorted(sc.sessions):
         for k, t in sorted(sc.topics.items()):
             if t["kind"] in ("grp", "chn") and rng.random() < 0.6:
@@ -238,6 +312,8 @@ def parse_out(text):
         elif w[0] == "goroutines":
             b["goroutines"] = int(w[1])
             b["complete"] = True
+        elif w[0] == "parked-purge":
+            b.setdefault("parked_purge", []).append((int(w[1]), w[2] if len(w) > 2 else "?"))
         elif w[0] == "unblocked-stop":
             b.setdefault("unblocked_stop", []).append(int(w[1]))
         elif w[0] == "autounstall":
@@ -334,7 +410,25 @@ def crash_law(log):
     return "server-crashed-or-hung"
 
 
+# Laws under which the schedule-dependent defects show (findings 1-3, 9-11).  They are accepted ONLY in a corpus
+# scenario that lists them as a possible outcome; in a random scenario - built so that its outcome class does not
+# depend on the schedule - and in a corpus scenario that does not list them the same symptom is a violation.
+RACY = ("topicinit-parked-on-nil-done", "sub-lost-in-exited-topic", "leave-lost-in-exited-topic", "del-lost-in-exited-topic",
+        "owner-del-dropped-while-loading", "sub-dropped-topic-stopped-while-loading", "deluser-blocked-on-topic-exit",
+        "session-blocked-on-stop-concurrent-deluser")
+
+
 def monitor(sc, r):
+    allowed = getattr(sc, "allowed", None)
+    res = []
+    for law, bi, detail in monitor0(sc, r):
+        if law in RACY and (allowed is None or law not in allowed):
+            law = ("unexpected-in-random-burst-" if allowed is None else "unexpected-in-corpus-scenario-") + law
+        res.append((law, bi, detail))
+    return res
+
+
+def monitor0(sc, r):
     """The laws of C14 on what the driver printed at each quiescence. -> list of (law, burst index, detail).
     Laws with a circumstance in their name are the narrow forms under which a reproduced defect of the
     server shows (findings/C14.md); everything else keeps the general name."""
@@ -377,6 +471,8 @@ def monitor(sc, r):
             else:
                 res.append(("hang", bi, "goroutine parked for ever: %s %s" % (kind, fns)))
         dead |= set(b["abandoned"])
+        for si, ch in b.get("parked_purge", ()):
+            res.append(("cleanup-blocked-in-purgeChannels", bi, "session %d: cleanUp is parked for ever in the receive of purgeChannels (Session.%s): `for len(ch) > 0 { <-ch }` lost the last queued item to the write loop, which still runs (session.go:399-414); unsubAll is never reached" % (si, ch)))
         for si in b.get("unblocked_stop", ()):
             u = sc.sessions[si]["user"]
             n = sum(1 for x in reqs if x["kind"] == "deluser" and sc.sessions[x["si"]]["user"] == u)
@@ -432,8 +528,9 @@ def monitor(sc, r):
                               # a request that also keeps the in-flight semaphore is judged all the same
             if q["kind"] == "deluser":
                 continue      # the session is stopped right after the reply is queued
-            if q["kind"] == "leave" and str(q["k"]) in evicted.get(q["si"], ()):
+            if q["kind"] == "leave" and str(q["k"]) in evicted.get(q["si"], ()) and not stuck:
                 continue      # the leave crossed the session's eviction: the eviction notice answers it
+                              # (it does not excuse a semaphore that stays taken: judged below)
             # the instance the session points to can have terminated: in this burst, or earlier when the session's
             # detach notice was still in flight at the last quiescence (stalled writer)
             exitp = exit_possible(sc, q["k"], lines) or bool(prev and prev["sess"].get(q["si"], {}).get("detachq"))
@@ -475,7 +572,7 @@ def monitor(sc, r):
             else:
                 res.append(("inflight-stuck", bi, "session %d has %d request(s) in flight at quiescence (its next subscribe/leave and its cleanUp block for ever)" % (si, st.get("inflight", 0))))
         for h in b["hang"]:
-            if b["unstuck"] or b["parked"] or b["abandoned"] or b.get("unblocked_stop"):
+            if b["unstuck"] or b["parked"] or b["abandoned"] or b.get("unblocked_stop") or b.get("parked_purge"):
                 continue      # diagnosed above
             res.append(("hang", bi, h[:1500]))
         # ---- state at quiescence
@@ -674,8 +771,10 @@ def run(ctx):
         if os.path.isdir(cdir):
             for f in sorted(os.listdir(cdir)):
                 rp = json.load(open(os.path.join(cdir, f)))
-                for i in range(rp.get("repeat", 5)):
-                    bursts.append(Scn.from_replay("c_%s_%d" % (f.split(".")[0], i), rp["scenario"]))
+                for i in range(rp.get("repeat", 5) * (1 if quick else 10)):
+                    csc = Scn.from_replay("c_%s_%d" % (f.split(".")[0], i), rp["scenario"])
+                    csc.allowed = list(rp.get("outcomes", []))
+                    bursts.append(csc)
         bursts += [gen_burst_scn(rng, "b%d" % i) for i in range(120 if quick else 1500)]
         seqs = [gen_seq_scn(rng, "s%d" % i) for i in range(150 if quick else 1500)]
     t0 = time.time()
